@@ -434,7 +434,8 @@ def expand_c13(st, seed):
             ee = [0] * nv
             ee[nv - 2] = 1
             R.append(dict(c=3, e=ee))
-        r["eqs"].append(dict(name=name, R=R, w=(2 + e) if st["wform"] == "dict" else (0 if st["wform"] == "nodyn" else 4)))
+        r["eqs"].append(dict(name=name, R=R, w=(2 + e) if st["wform"] == "dict" else (0 if st["wform"] == "nodyn" else 4),
+                             scalar=bool((e + len(st["naming"]) + st["nunk"]) % 3 == 0)))     # this equation returns its residual as a 0-d scalar
     return r
 
 
